@@ -30,6 +30,7 @@ type Solver struct {
 	dead    bool
 	closed  bool
 	stack   []*Term
+	retried int
 }
 
 func solverArgs(name string, timeoutMs int) (string, []string) {
@@ -226,6 +227,20 @@ func (s *Solver) Check(pc []*Term, wantModel []*Term, extra ...*Term) (Result, m
 			}
 		}
 	}
+	if res == Unknown && !s.dead && os.Getenv("VERIF_NO_RETRY") == "" {
+		// retry in fresh processes (other solver builds included) on a script reduced to what this
+		// query depends on; only if all of them fail is the query inconclusive
+		if r2, m2 := s.retryFresh(pc, extra, wantModel); r2 != Unknown {
+			s.send("(pop 1)\n")
+			s.retried++
+			if r2 == Sat {
+				s.sat++
+			} else {
+				s.unsat++
+			}
+			return r2, m2
+		}
+	}
 	switch res {
 	case Sat:
 		s.sat++
@@ -396,4 +411,47 @@ func sxText(n *sx) string {
 		parts = append(parts, sxText(c))
 	}
 	return "(" + strings.Join(parts, " ") + ")"
+}
+
+// retryFresh decides pc AND extra in fresh solver processes.
+func (s *Solver) retryFresh(pc []*Term, extra []*Term, wantModel []*Term) (Result, map[string]string) {
+	lits := append(append([]*Term{}, pc...), extra...)
+	script := s.ctx.freshScript(lits, wantModel)
+	type cand struct {
+		bin  string
+		args []string
+	}
+	cands := []cand{
+		{"z3", []string{"-in", "-t:60000"}},
+		{"z3-new", []string{"-in", "-t:60000"}},
+		{"cvc5", []string{"--lang=smt2", "--produce-models", "--tlimit=60000"}},
+	}
+	if dir := os.Getenv("VERIF_SMTLOG"); dir != "" {
+		os.WriteFile(dir+"/retry.smt2", []byte(script), 0o644)
+	}
+	for _, c := range cands {
+		cmd := exec.Command(c.bin, c.args...)
+		cmd.Stdin = strings.NewReader(script)
+		t0 := time.Now()
+		outb, _ := cmd.Output()
+		s.elapsed += time.Since(t0)
+		out := strings.TrimSpace(string(outb))
+		lines := strings.SplitN(out, "\n", 2)
+		// an (error ...) before the verdict makes the run inconclusive; the get-value error that
+		// follows an unsat verdict ("model is not available") is expected
+		switch strings.TrimSpace(lines[0]) {
+		case "unsat":
+			return Unsat, nil
+		case "sat":
+			var model map[string]string
+			if len(wantModel) > 0 && len(lines) > 1 && !strings.Contains(lines[1], "(error") {
+				model = parseModel(strings.TrimSpace(lines[1]), wantModel)
+			}
+			if len(wantModel) > 0 && model == nil {
+				continue
+			}
+			return Sat, model
+		}
+	}
+	return Unknown, nil
 }
